@@ -413,8 +413,11 @@ class Run:
         ev = {"property_id": self.pid, "tier": self.tier, "seed": self.seed, "level": "model_checking",
               "coverage": cov, "assumptions": self.assumptions, "wall_s": round(time.time() - self.t0, 2),
               "violations": len(self.violations)}
-        os.makedirs(os.path.join(VERIF, "evidence"), exist_ok=True)
-        with open(os.path.join(VERIF, "evidence", self.pid + ".json"), "w") as f:
+        # (seeded-change evaluations point VERIF_EVIDENCE_DIR at a scratch directory: the committed evidence is always
+        #  from a run against /repo itself)
+        evdir = os.environ.get("VERIF_EVIDENCE_DIR") or os.path.join(VERIF, "evidence")
+        os.makedirs(evdir, exist_ok=True)
+        with open(os.path.join(evdir, self.pid + ".json"), "w") as f:
             json.dump(ev, f, indent=1, default=str)
         log("RESULT property=%s tier=%s seed=%s states=%d transitions=%d impl_traces=%d violations=%d known=%d drift=%d wall=%.1fs"
             % (self.pid, self.tier, self.seed, self.states, self.transitions, self.traces, len(self.violations),
